@@ -259,7 +259,10 @@ func wireSwitchExhaustive(c *core.Ctx, l *core.Ledger, rule, rel, fname string, 
 		}
 	}
 	if !found {
-		l.Unk(rule, rel+"."+fname, c.Rel(fd.Pos()), "no switch over wire.Type found: dispatch shape not recognised")
+		if reportWireDispatchSSA(c, l, rule, rel+"."+fname, c.Rel(fd.Pos()), c.SSAFunc(fobj), consts, wireT, needErrorDefault) {
+			return
+		}
+		l.Unk(rule, rel+"."+fname, c.Rel(fd.Pos()), "no switch over wire.Type found and the per-code evaluation did not finish: dispatch shape not recognised")
 	}
 }
 
